@@ -84,27 +84,9 @@ func c07enum(c *runner.Ctx, i int) {
 		ec.coalesce = 2 * time.Millisecond // the four first frames leave in one flush
 	}
 	ec.intensity = []int{0, 20}[r.Intn(2)]
-	hs, ok := c07handshake[version]
+	hs, ok := handshakeSize(c, ec)
 	if !ok {
-		dry := *ec
-		dry.callers, dry.perCaller = 1, 1
-		res := runEcho(c, &dry)
-		if res == nil || len(res.dataConns) == 0 {
-			return
-		}
-		w, _, _, _ := res.dataConns[0].Driver.Snapshot()
-		// everything before the first ECHO frame
-		idx := strings.Index(string(w), "ECHO ")
-		if idx < 0 {
-			c.Broken("c07enum: dry run has no ECHO frame")
-			return
-		}
-		hdr := 9 + 4 // header + [long string] length
-		if version < 3 {
-			hdr = 8 + 4
-		}
-		hs = int64(idx - hdr)
-		c07handshake[version] = hs
+		return
 	}
 	// walk the offsets of the first ~4 frames (each ~40 bytes): offset index from the case number
 	k := int64((i / 10) % 700)
@@ -146,4 +128,31 @@ func c07mixed(c *runner.Ctx, i int) {
 	if c.WantSample() {
 		c.Sample(map[string]interface{}{"scenario": echoKey(ec), "cut_at": ec.writeCutAt, "outcomes": res.outcomes, "frames_on_wire": res.wireFrames, "bytes_on_wire": res.wireBytes})
 	}
+}
+
+// handshakeSize measures (by a dry run, once per version and worker) how many bytes the
+// driver writes on a data connection before the first request frame.
+func handshakeSize(c *runner.Ctx, ec *echoCfg) (int64, bool) {
+	if hs, ok := c07handshake[ec.version]; ok {
+		return hs, true
+	}
+	dry := *ec
+	dry.callers, dry.perCaller, dry.writeCutAt, dry.padTokens, dry.pNever, dry.pLate = 1, 1, -1, false, 0, 0
+	res := runEcho(c, &dry)
+	if res == nil || len(res.dataConns) == 0 {
+		return 0, false
+	}
+	w, _, _, _ := res.dataConns[0].Driver.Snapshot()
+	idx := strings.Index(string(w), "ECHO ")
+	if idx < 0 {
+		c.Broken("handshakeSize: dry run has no ECHO frame")
+		return 0, false
+	}
+	hdr := 9 + 4 // header + [long string] length
+	if ec.version < 3 {
+		hdr = 8 + 4
+	}
+	hs := int64(idx - hdr)
+	c07handshake[ec.version] = hs
+	return hs, true
 }
